@@ -804,6 +804,145 @@ def g7(rep, src):
         rep.violation("G7", "Score:Private=0", "a Private node contributes %s to the score" % w["Private"], f.where())
 
 
+# ------------------------------------------------------------------------------------------------ G8
+# reviewed: which rule set each entry point searches.  ("caller_or", V): the caller's Some(s) is used as is, None means V.
+ENTRY_STRATEGY = {
+    "rewrite_as_privacy_unit_preserving": ("caller_or", "Hard"),  # documented on the entry point: "If a Strategy is not passed the Strategy::Hard will be used"
+    "rewrite_with_differential_privacy": ("const", "Hard"),  # no strategy parameter: the complete (Hard) rule set
+}
+
+
+class _G8Undecided(Exception):
+    pass
+
+
+def _default_variant(src, enum):
+    items = src.find_items("enum", name=enum)
+    items = [it for it in items if not it[2].get("test")]
+    if len(items) != 1:
+        raise _G8Undecided("enum %s: expected one definition, found %d" % (enum, len(items)))
+    dv = [v["name"] for v in items[0][2]["variants"] if "default" in (v.get("attrs") or [])]
+    if len(dv) != 1:
+        raise _G8Undecided("enum %s has no single #[default] variant (a hand-written `impl Default` is not read)" % enum)
+    return dv[0]
+
+
+def _strategy_value(e, env, src):
+    """abstract value of an expression of type Strategy / Option<Strategy>: ("const", V) | ("opt",) | ("caller",) | ("caller_or", V)"""
+    k = e["k"]
+    if k in ("paren", "ref") or (k == "unary" and e["op"].strip() in ("*", "&")):
+        return _strategy_value(e["e"], env, src)
+    if k == "block" and len(e["stmts"]) == 1 and e["stmts"][0]["k"] == "expr" and not e["stmts"][0].get("semi"):
+        return _strategy_value(e["stmts"][0]["e"], env, src)
+    if k == "path":
+        segs = e["segs"]
+        if len(segs) == 1 and segs[0] in env:
+            return env[segs[0]]
+        if len(segs) >= 2 and segs[-2] == "Strategy":
+            return ("const", segs[-1])
+        raise _G8Undecided("the path `%s`" % "::".join(segs))
+    if k == "call":
+        p = path_of(e["f"]) or ""
+        if p in ("Strategy::default", "Default::default") and not e["args"]:
+            return ("const", _default_variant(src, "Strategy"))
+        raise _G8Undecided("the call `%s`" % show(e, 60))
+    if k == "mcall":
+        m, args = e["m"], e["args"]
+        if m in ("clone", "to_owned") and not args:
+            return _strategy_value(e["recv"], env, src)
+        r = _strategy_value(e["recv"], env, src)
+        if r == ("opt",):
+            if m == "unwrap_or" and len(args) == 1:
+                d = _strategy_value(args[0], env, src)
+            elif m == "unwrap_or_else" and len(args) == 1 and args[0]["k"] == "closure" and not args[0]["params"]:
+                d = _strategy_value(args[0]["body"], env, src)
+            elif m == "unwrap_or_default" and not args:
+                d = ("const", _default_variant(src, "Strategy"))
+            elif m == "map_or" and len(args) == 2 and args[1]["k"] == "closure" and len(args[1]["params"]) == 1:
+                cp = args[1]["params"][0]
+                if cp["k"] != "ident" or _strategy_value(args[1]["body"], {cp["name"]: ("caller",)}, src) != ("caller",):
+                    raise _G8Undecided("`%s`" % show(e, 60))
+                d = _strategy_value(args[0], env, src)
+            else:
+                raise _G8Undecided("`.%s(..)` on the caller's option" % m)
+            if d[0] != "const":
+                raise _G8Undecided("the fallback `%s`" % show(e, 60))
+            return ("caller_or", d[1])
+        raise _G8Undecided("`%s`" % show(e, 60))
+    if k == "match" or (k == "if" and e["cond"]["k"] == "letcond"):
+        if k == "match":
+            scrut = _strategy_value(e["e"], env, src)
+            arms = [(a["pat"], a["body"], a.get("guard")) for a in e["arms"]]
+        else:
+            scrut = _strategy_value(e["cond"]["e"], env, src)
+            if e.get("else") is None:
+                raise _G8Undecided("if-let without else")
+            arms = [(e["cond"]["pat"], e["then"], None), ({"k": "wild"}, e["else"], None)]
+        if scrut != ("opt",):
+            raise _G8Undecided("`%s`" % show(e, 60))
+        some = none = None
+        for pat, body, guard in arms:
+            if guard:
+                raise _G8Undecided("guarded arm")
+            if pat["k"] == "tuplestruct" and pat["path"]["segs"][-1] == "Some" and len(pat["elems"]) == 1 and pat["elems"][0]["k"] == "ident":
+                if some is None:
+                    some = _strategy_value(body, dict(env, **{pat["elems"][0]["name"]: ("caller",)}), src)
+            elif pat["k"] in ("wild",) or (pat["k"] in ("path", "ident") and (pat.get("segs") or [pat.get("name")])[-1] == "None"):
+                if none is None:
+                    none = _strategy_value(body, env, src)
+            else:
+                raise _G8Undecided("arm `%s`" % show(pat, 40))
+        if some == ("caller",) and none and none[0] == "const":
+            return ("caller_or", none[1])
+        raise _G8Undecided("`%s`" % show(e, 60))
+    raise _G8Undecided("`%s`" % show(e, 60))
+
+
+def g8(rep, src):
+    rep.rule(
+        "G8",
+        "rule set searched: the strategy each entry point hands to RewritingRulesSetter::new is the caller's `Some(s)`, and Strategy::Hard when the caller passes None "
+        "(rewrite_as_privacy_unit_preserving, as documented) / Strategy::Hard (rewrite_with_differential_privacy) - read through unwrap_or / unwrap_or_else / unwrap_or_default (the #[default] variant) / match / if-let",
+        floor=2,
+        necessary="the rules attached to every node depend on the strategy: with Soft as the silent default a GROUP BY on a protected table or a join of two protected tables has no PUP rule, "
+        "and a request without strategy is reported unreachable although a consistent assignment with an acceptable root exists for the documented default",
+    )
+    for name, want in ENTRY_STRATEGY.items():
+        f = src.one_fn(name=name, file="rewriting/mod.rs")
+        env = {}
+        for pr in f.params:
+            pt = pr.get("pat") or {}
+            if pt.get("k") == "ident" and "Strategy" in (pr.get("ty") or ""):
+                env[pt["name"]] = ("opt",) if (pr.get("ty") or "").replace(" ", "").startswith("Option<") else ("caller",)
+        got = None
+        try:
+            for st in f.body["stmts"]:
+                calls = [c for c in find(st, "call") if (path_of(c["f"]) or "").endswith("RewritingRulesSetter::new")]
+                if calls:
+                    if len(calls) != 1 or len(calls[0]["args"]) != 5:
+                        raise _G8Undecided("RewritingRulesSetter::new is not called once with five arguments")
+                    got = _strategy_value(calls[0]["args"][4], env, src)
+                    break
+                if st["k"] == "let" and st["pat"]["k"] == "ident" and st.get("init") is not None:
+                    nm = st["pat"]["name"]
+                    try:
+                        env[nm] = _strategy_value(st["init"], env, src)
+                    except _G8Undecided:
+                        env.pop(nm, None)
+            if got is None:
+                raise _G8Undecided("no statement of the entry point calls RewritingRulesSetter::new")
+        except _G8Undecided as u:
+            rep.undecidable("G8", name, "the strategy handed to RewritingRulesSetter::new cannot be read: %s" % u, f.where())
+            continue
+        if got == ("caller",):
+            got = ("caller_or", None)
+        rep.instance("G8", name, {"entry": name, "strategy": list(got), "expected": list(want)})
+        if got != want:
+            def say(v):
+                return "Strategy::%s" % v[1] if v[0] == "const" else "the caller's strategy, Strategy::%s when none is passed" % v[1]
+            rep.violation("G8", name + "@strategy", "%s searches the rule set of %s; reviewed: %s" % (name, say(got), say(want)), f.where())
+
+
 def run(rep):
     rep.explanation = (
         "Arm/term tables of the rewriting search read from the syn AST: positional agreement of selector and eliminator predicates (G1), "
@@ -818,4 +957,5 @@ def run(rep):
     g5(rep, src)
     g6(rep, src)
     g7(rep, src)
+    g8(rep, src)
     rep.assume("Visited::get returns the value computed for that child (visitor.rs, not analysed)")
